@@ -37,6 +37,9 @@ class BatchScenario:
         self.names = kw.get("names", "idx")
         self.nlab = kw.get("nlab", 1)                  # > 1: dict outputs over several labels, the last label only for some inputs
         self.fault_type = kw.get("fault_type", 0)
+        # the loss is a callable *object* carrying attributes a river metric would have (bigger_is_better = True ...):
+        # for a plain callable they mean nothing - the loss is used as given
+        self.loss_object = kw.get("loss_object", False)
 
     def to_json(self):
         d = dict(self.__dict__)
@@ -119,6 +122,17 @@ def run(sc, tape_mode="log", script=None, provider=None):
         st["events"].append({"k": "loss", "y": y_true, "pred": lab_pairs(y_pred), "val": red(val), "raw": val})
         return val
 
+    if sc.loss_object:
+        class LossObject:
+            bigger_is_better = True
+            requires_labels = True
+
+            def __init__(self, fn):
+                self.fn = fn
+
+            def __call__(self, y_true, y_pred):
+                return self.fn(y_true, y_pred)
+        loss = LossObject(loss)
     random.seed(sc.seed)
     np.random.seed(sc.seed % 2 ** 32)
     kw = {}
@@ -300,15 +314,23 @@ def run(sc, tape_mode="log", script=None, provider=None):
                          (lambda: ex.explain_many(x_data, y_data, **kw2))
                 c = one_call(0, fn, sc.rows, bg)
                 c["mode"] = sc.mode
+                if c["outcome"] == "exc":
+                    # the explanation failed: the same object explains the same data again (nothing of the failed attempt
+                    # may be left behind)
+                    c2 = one_call(1, fn, sc.rows, bg)
+                    c2["mode"] = sc.mode
             else:
+                held = []          # rows the storage holds (a call that failed inside the storage update stored nothing)
                 for ci, (x, y) in enumerate(data):
                     kw2 = {"verbose": False, "original_sage": sc.mode == "one_original"}
                     if sc.n_override is not None:
                         kw2["n_inner_samples"] = sc.n_override
-                    rows_now = sc.rows[: ci + 1]
+                    rows_now = held + [sc.rows[ci]]
                     bg = [[red(v) for v in xs] for xs, _ in rows_now]
                     c = one_call(ci, lambda x=x, y=y: ex.explain_one(x, y, **kw2), rows_now, bg)
                     c["mode"] = sc.mode
+                    if c["outcome"] != "exc" or any(r is x for r in sto.get_data()[0]):
+                        held.append(sc.rows[ci])
         else:
             for ci, ((xs, y), (force, upd)) in enumerate(zip(sc.rows, sc.calls)):
                 x = {nm: float(v) for nm, v in zip(names, xs)}
@@ -321,6 +343,9 @@ def run(sc, tape_mode="log", script=None, provider=None):
                     kw2["n_inner_samples"] = sc.n_override
                 c = one_call(ci, lambda x=x, y=y: ex.explain_one(x, y, **kw2), win,
                              [[red(v) for v in w[0]] for w in win], force=force, upd=upd, seen_before=seen_before)
+                if upd and c["outcome"] == "exc" and not any(r is x for r in sto.get_data()[0]):
+                    updated.pop()          # the call failed inside the storage update: nothing was stored
+                    win = updated[-sc.storage_len:] if sc.storage_len > 0 else []
                 got_rows, _ = storage_rows()
                 c["window"] = got_rows
                 c["want_window"] = [[red(v) for v in w[0]] for w in win]
